@@ -3,7 +3,7 @@
    unlocked deposits (multi- and single-asset), bank sends, block changes and rejected operations is exactly the initial
    excess plus the tokens sent to it by plain bank sends plus one unit per accepted odd single-asset deposit. *)
 From MD.Model Require Import Base Ownable Epoch PoolMath Types PoolManager FarmManager Chain.
-From MD.Proofs Require Import LockedExcess CreateExcess Tactics Arith PoolMathProofs MapLemmas BankProofs SwapProofs ChainProofs PmProofs PmChainProofs LiquidityProofs
+From MD.Proofs Require Import LockedExcess SingleLockedExcess CreateExcess Tactics Arith PoolMathProofs MapLemmas BankProofs SwapProofs ChainProofs PmProofs PmChainProofs LiquidityProofs
   AtomicProofs PoolCustody PoolCustodyChain SingleSided TxBalances TxExcess.
 
 Definition asset_denom (d : string) : Prop := forall id, d <> lp_of_id id.
@@ -14,16 +14,17 @@ Definition covered_op (o : op) : Prop :=
   | SetBlock _ | SetFault _ => True
   | BankSendOp from _ _ => from <> PM
   | Tx sender target m funds =>
-      sender <> PM /\ target = PM /\
+      sender <> PM /\
+      ((target = EM \/ target = FC) \/        (* the epoch manager and the fee collector: no concern of the pool manager *)
+      target = PM /\
       match m with
       | WPm (PmSwap _ _ _ r _) | WPm (PmRoute _ _ r _) | WPm (PmProvide _ _ r _ None _) => r <> Some PM
-      | WPm (PmProvide _ _ _ _ (Some _) _) =>      (* LP locked in the farm manager: deposits of two or more assets *)
-          match aggregate_coins funds with Ok (_ :: _ :: _) => True | _ => False end
+      | WPm (PmProvide _ _ _ _ (Some _) _) => True      (* LP locked in the farm manager (a nested contract call) *)
       | WPm (PmWithdraw _) => True
       | WPm (PmCreatePool _ _ _ _ _) => forall d, camt funds d <= U128_MAX       (* amounts of a real bank *)
       | WPm (PmOwnership _) | WPm (PmUpdateConfig _ _ _ _) => True
       | _ => False
-      end
+      end)
   end.
 Definition ok_state (w : world) : Prop :=
   pm_fee_collector (pm_cfg (w_pm w)) <> PM /\ pm_farm_manager (pm_cfg (w_pm w)) = FM /\ lp_inv (w_pm w) /\ fees_small w.
@@ -33,7 +34,7 @@ Definition gift (w : world) (o : op) (d : string) : Z :=
   if snd (step w o) then
     match o with
     | BankSendOp _ to amt => if String.eqb to PM then camt amt d else 0
-    | Tx _ _ (WPm (PmProvide _ _ _ _ None _)) funds =>
+    | Tx _ _ (WPm (PmProvide _ _ _ _ _ _)) funds =>
         match aggregate_coins funds with
         | Ok [dep] => ind (String.eqb (denom_of dep) d) (amount_of dep mod 2)
         | _ => 0
@@ -76,7 +77,15 @@ Proof.
   intros Hc (Hfc & Hfmc & Hlp & Hsmall) Hd. unfold gift.
   destruct o as [b|sender target m funds|from to amount|k]; cbn [step covered_op] in *.
   - cbn [fst snd]. unfold slackP. cbn [w_bank w_pm set_block]. lia.
-  - destruct Hc as (Hs & -> & Hm).
+  - destruct Hc as (Hs & [Hother | (-> & Hm)]).
+    { destruct (run_tx w sender target m funds) as [w'|e] eqn:E; cbn [fst snd]; [|rewrite slackP_set_fault; lia].
+      rewrite slackP_set_fault, (em_fc_tx_excess _ _ _ _ _ _ Hs Hother E d).
+      destruct m as [| |pm|]; try lia. destruct pm; try lia.
+      (* a deposit message sent to the wrong contract is rejected: this branch is not reached with an accepted transaction *)
+      exfalso. unfold run_tx in E. destruct (process FUEL w sender _) as [[wx|ex] flx] eqn:Ep; cbn [fst] in E; [|discriminate].
+      unfold FUEL in Ep. destruct (plain_call _ _ _ _ _ _ _ _ Ep) as (wa & fla & w2 & subs2 & fl2 & _ & Eh & _).
+      apply handle_ok_typed in Eh. destruct Eh as (Eh & _ & _). unfold handle_typed in Eh.
+      destruct Hother as [->| ->]; cbn [String.eqb EM FC PM FM Ascii.eqb Bool.eqb] in Eh; discriminate. }
     destruct (run_tx w sender PM m funds) as [w'|e] eqn:E; cbn [fst snd]; [|rewrite slackP_set_fault; lia].
     rewrite slackP_set_fault.
     destruct m as [| |pm|]; try contradiction.
@@ -86,9 +95,16 @@ Proof.
     + (* deposits *)
       destruct u as [dur|].
       { (* locked in the farm manager *)
-        destruct (aggregate_coins funds) as [[|d0 [|d1 rest]]|e] eqn:Hagg; try contradiction.
-        destruct (locked_provide_tx_excess _ _ _ _ _ _ _ _ _ _ _ _ _ Hs Hfmc Hagg E) as (p & minliq & Hp & _ & Hex).
-        rewrite Hex, (pool_lp_not_asset _ _ _ _ Hlp Hd Hp). unfold ind. lia. }
+        destruct (run_tx_ok_handle _ _ _ _ _ _ E) as (w1 & w2 & subs & Hs1 & Eh).
+        destruct (handle_pm_bank _ _ _ _ _ _ Eh) as (s1 & Hx & _). cbn [pm_execute] in Hx.
+        destruct (provide_needs_funds _ _ _ _ _ _ _ _ _ _ _ Hx) as (deps & Hagg & Hne).
+        rewrite Hagg. destruct deps as [|d0 [|d1 rest]]; [contradiction| |].
+        - destruct (single_asset_locked_tx_excess _ _ _ _ _ _ _ _ _ _ _ Hs Hfmc Hagg E) as (p & askc & sim & minliq & Hp & _ & _ & Hex).
+          rewrite Hex. rewrite (pool_lp_not_asset _ _ _ _ Hlp Hd Hp).
+          assert (Hf : String.eqb PM (pm_fee_collector (pm_cfg (w_pm w))) = false) by (apply String.eqb_neq; congruence). rewrite Hf.
+          unfold ind. lia.
+        - destruct (locked_provide_tx_excess _ _ _ _ _ _ _ _ _ _ _ _ _ Hs Hfmc Hagg E) as (p & minliq & Hp & _ & Hex).
+          rewrite Hex, (pool_lp_not_asset _ _ _ _ Hlp Hd Hp). unfold ind. lia. }
       destruct (run_tx_ok_handle _ _ _ _ _ _ E) as (w1 & w2 & subs & Hs1 & Eh).
       destruct (handle_pm_bank _ _ _ _ _ _ Eh) as (s1 & Hx & _). cbn [pm_execute] in Hx.
       destruct (provide_needs_funds _ _ _ _ _ _ _ _ _ _ _ Hx) as (deps & Hagg & Hne).
@@ -149,7 +165,7 @@ Lemma gift_nonneg w o d : covered_op o -> 0 <= gift w o d.
 Proof.
   intros Hc. unfold gift. destruct (snd (step w o)) eqn:Es; [|lia].
   destruct o as [b|sender target m funds|from to amount|k]; try lia.
-  - destruct m as [| |pm|]; try lia. destruct pm; try lia. destruct unlock; try lia.
+  - destruct m as [| |pm|]; try lia. destruct pm; try lia.
     destruct (aggregate_coins funds) as [[|dep [|x y]]|e]; try lia. unfold ind. destruct (String.eqb (denom_of dep) d); [|lia].
     apply Z.mod_pos_bound. lia.
   - destruct (String.eqb to PM); [|lia].
